@@ -25,7 +25,7 @@ pub mod c10;
 
 /// run the real code for one request; None = unknown function
 pub fn run(r: &Req) -> Option<String> {
-    c01::run(r).or_else(|| c02::run(r)).or_else(|| c04::run(r)).or_else(|| c16::run(r)).or_else(|| c15::run(r)).or_else(|| c11::run(r)).or_else(|| c20::run(r)).or_else(|| c18::run(r)).or_else(|| c17::run(r)).or_else(|| c12::run(r)).or_else(|| c13::run(r)).or_else(|| c09::run(r)).or_else(|| c03::run(r)).or_else(|| c14::run(r)).or_else(|| c19::run(r)).or_else(|| c06::run(r)).or_else(|| c07::run(r)).or_else(|| c10::run(r))
+    c01::run(r).or_else(|| c02::run(r)).or_else(|| c04::run(r)).or_else(|| c16::run(r)).or_else(|| c15::run(r)).or_else(|| c11::run(r)).or_else(|| c20::run(r)).or_else(|| c18::run(r)).or_else(|| c17::run(r)).or_else(|| c12::run(r)).or_else(|| c13::run(r)).or_else(|| c09::run(r)).or_else(|| c03::run(r)).or_else(|| c14::run(r)).or_else(|| c19::run(r)).or_else(|| c06::run(r)).or_else(|| c07::run(r)).or_else(|| c08::run(r)).or_else(|| c10::run(r))
 }
 
 /// (request lines, whether the enumerated part was exhaustive over its stated bounds)
@@ -89,6 +89,7 @@ pub fn compare(prop: &str, r: &Req, imp: &str, model: &str) -> Option<bool> {
         "C12" => c12::compare(r, imp, model),
         "C06" => c06::compare(r, imp, model),
         "C07" => c07::compare(r, imp, model),
+        "C08" => c08::compare(r, imp, model),
         "C10" => Some(c10::compare(r, imp, model)),
         _ => None,
     }
